@@ -16,7 +16,7 @@ import (
 
 func init() { domains["rt"] = &domain{gen: genRt, run: runRt} }
 
-var cleanValues = []string{" lead", "trail\t", "=?utf-8?q?x?=", "v", "two words", "a: b", "<urn:uuid:1>", "12", "caf\xc3\xa9", "x=y; z", "tab\tinside", "\xc2\xa0nbsp\xc2\xa0", "\xe3\x80\x80wide", "v\xe2\x80\x80", "a\x0bb", "\x0cff", "\x85x"}
+var cleanValues = []string{"a%20b", "100%", "%s %d%v", "%%", " lead", "trail\t", "=?utf-8?q?x?=", "v", "two words", "a: b", "<urn:uuid:1>", "12", "caf\xc3\xa9", "x=y; z", "tab\tinside", "\xc2\xa0nbsp\xc2\xa0", "\xe3\x80\x80wide", "v\xe2\x80\x80", "a\x0bb", "\x0cff", "\x85x"}
 
 func genValidRecord(r *rand.Rand) genRecord {
 	g := genRecord{rt: pick(r, typeNums)}
@@ -60,12 +60,20 @@ func genValidRecord(r *rand.Rand) genRecord {
 		g.fields = append(g.fields, [2]string{"WARC-Segment-Number", "2"}, [2]string{"WARC-Segment-Origin-ID", "<urn:uuid:1>"})
 	}
 	if g.rt&(2|4|8|16|32|64) != 0 && r.Intn(2) == 0 {
-		g.fields = append(g.fields, [2]string{"WARC-Target-URI", "http://example.com/"})
+		g.fields = append(g.fields, [2]string{"WARC-Target-URI", pick(r, []string{"http://example.com/", "http://example.com/a%20b?q=%41%s"})})
+	}
+	if r.Intn(120) == 0 { // a header line longer than a bufio buffer, blanks all along
+		g.fields = append(g.fields, [2]string{pick(r, unknownNames), longValue(r)})
 	}
 	for k := r.Intn(3); k > 0; k-- {
 		g.fields = append(g.fields, [2]string{randCase(r, pick(r, unknownNames)), pick(r, cleanValues)})
 	}
 	return g
+}
+
+// longValue: more than 4096 bytes with a blank at every other position
+func longValue(r *rand.Rand) string {
+	return strings.Repeat(pick(r, []string{"x ", "y\t"}), 2050+r.Intn(60)) + "z"
 }
 
 func genRt(r *rand.Rand, n int, tier string, out *bufio.Writer) {
